@@ -33,6 +33,86 @@ EXPLANATION = (
 )
 
 
+
+def _edge_map_form(fgi, env):
+    """Recognise the one-pass formulation of _get_face_intersections: a loop over the faces, an inner loop over the
+    edges `(a, b)` of the face, and a dictionary looked up / filled with a key computed from `a` and `b`.
+
+    Returns None when the function is not of that form, otherwise (verdict, line, text):
+      "ok"            the key identifies the unordered pair {a, b}: (min, max) / sorted tuple / frozenset, or the
+                      positional code `lo * S + hi` with S the number of vertices (hi < S, so the code is injective);
+      "directed"      the key is the ordered pair: consistently oriented neighbours traverse the edge in opposite
+                      directions and never meet;
+      "not-injective" a positional code whose stride is not the number of vertices (hi may reach or exceed the stride,
+                      two different edges then share one key).
+    An unrecognised key expression raises AnalysisError (no verdict)."""
+    for outer in ast.walk(fgi.node):
+        if not isinstance(outer, ast.For):
+            continue
+        for inner in ast.walk(outer):
+            if inner is outer or not isinstance(inner, ast.For):
+                continue
+            it = inner.iter
+            if not (isinstance(it, ast.Call) and ast.unparse(it.func).endswith("_face_to_edges")):
+                continue
+            if not (isinstance(inner.target, ast.Tuple) and len(inner.target.elts) == 2 and all(isinstance(e, ast.Name) for e in inner.target.elts)):
+                continue
+            a, b = (e.id for e in inner.target.elts)
+            # dictionary accesses inside the inner loop: `k in d`, `d[k]`, `d.pop(k)`, `d.get(k)`, `d.setdefault(k, ..)`
+            keys = []
+            for n in ast.walk(inner):
+                if isinstance(n, ast.Compare) and len(n.ops) == 1 and isinstance(n.ops[0], (ast.In, ast.NotIn)):
+                    keys.append(n.left)
+                elif isinstance(n, ast.Subscript) and isinstance(n.value, ast.Name):
+                    keys.append(n.slice)
+                elif isinstance(n, ast.Call) and isinstance(n.func, ast.Attribute) and n.func.attr in ("pop", "get", "setdefault") and n.args:
+                    keys.append(n.args[0])
+            local = {}
+            for n in ast.walk(inner):
+                if isinstance(n, ast.Assign) and len(n.targets) == 1 and isinstance(n.targets[0], ast.Name):
+                    local[n.targets[0].id] = n.value
+            keyexprs = []
+            for k in keys:
+                d = 0
+                while isinstance(k, ast.Name) and k.id in local and d < 4:
+                    k = local[k.id]
+                    d += 1
+                names = {m.id for m in ast.walk(k) if isinstance(m, ast.Name)}
+                if {a, b} <= names:
+                    keyexprs.append(k)
+            if not keyexprs:
+                continue
+            k = keyexprs[0]
+            txt = ast.unparse(k)
+            mn, mx = {f"min({a}, {b})", f"min({b}, {a})"}, {f"max({a}, {b})", f"max({b}, {a})"}
+            if isinstance(k, ast.Tuple) and len(k.elts) == 2:
+                e0, e1 = (ast.unparse(e) for e in k.elts)
+                if (e0 in mn and e1 in mx) or (e0 in mx and e1 in mn):
+                    return ("ok", k.lineno, txt)
+                if {e0, e1} == {a, b}:
+                    return ("directed", k.lineno, f"the edge dictionary is keyed by the ordered pair `{txt}`: two consistently oriented "
+                            "neighbours traverse their common edge in opposite directions and are never matched")
+            if isinstance(k, ast.Call) and ast.unparse(k.func) in ("frozenset", "tuple") and k.args:
+                arg = k.args[0]
+                if ast.unparse(k.func) == "frozenset" or (isinstance(arg, ast.Call) and ast.unparse(arg.func) == "sorted"):
+                    return ("ok", k.lineno, txt)
+            if isinstance(k, ast.BinOp) and isinstance(k.op, ast.Add):
+                for prod, other in ((k.left, k.right), (k.right, k.left)):
+                    if isinstance(prod, ast.BinOp) and isinstance(prod.op, ast.Mult):
+                        for lo, stride in ((prod.left, prod.right), (prod.right, prod.left)):
+                            if ast.unparse(lo) in mn | mx and ast.unparse(other) in mn | mx and ast.unparse(lo) != ast.unparse(other):
+                                st = resolve(stride, fgi.node, _env=env)
+                                stxt = ast.unparse(st)
+                                if stxt in ("self.num_vertices", "len(self.vertices)", "len(self._vertices)", "self.vertices.shape[0]", "self._vertices.shape[0]"):
+                                    return ("ok", k.lineno, f"{txt} with stride {stxt}")
+                                if stxt in ("self.num_faces", "len(self.faces)", "len(self._faces)") or isinstance(st, ast.Constant):
+                                    return ("not-injective", k.lineno, f"the edge dictionary is keyed by the positional code `{txt}` with stride `{stxt}`: "
+                                            "the second index is a vertex index and reaches num_vertices - 1, so with a stride other than the "
+                                            "number of vertices two different edges can share one key (whenever num_vertices exceeds the stride) "
+                                            "and unrelated faces are reported as neighbours while real neighbours are lost")
+            raise AnalysisError(f"NBR-2: the edge-dictionary key `{txt}` of _get_face_intersections is not of a recognised form")
+    return None
+
 def _fn(index, cname, member):
     cls = index.cls(cname)
     m = cls.lookup(member)
@@ -296,8 +376,18 @@ def run(index, tier="quick", seed=0) -> Result:
     rng = [n for n in ast.walk(fgi.node) if isinstance(n, ast.For) and isinstance(n.iter, ast.Call) and ast.unparse(n.iter.func) == "range"
            and isinstance(n.target, ast.Name)]
     combos = [n for n in ast.walk(fgi.node) if isinstance(n, ast.Call) and ast.unparse(n.func).endswith("combinations")]
+    edge_map = _edge_map_form(fgi, envg)
     if combos:
         res.ok("NBR-2", "Polyhedron._get_face_intersections:all-pairs", nontrivial=False)
+    elif edge_map is not None:
+        # one pass over the faces with a dictionary keyed by the undirected edge: every shared edge meets its partner,
+        # provided the key identifies the unordered vertex pair (KEY-1)
+        verdict, where, what = edge_map
+        if verdict == "ok":
+            res.ok("NBR-2", "Polyhedron._get_face_intersections:all-pairs", sample={"edge-map key": what})
+            res.ok("NBR-2", "Polyhedron._get_face_intersections:both-directions", sample={"edge-map key": what})
+        else:
+            res.bad("NBR-2", f"Polyhedron._get_face_intersections:edge-key:{verdict}", f"{fgi.file}:{where}", what)
     else:
         outer = [n for n in rng if len(n.iter.args) == 1]
         inner = [n for n in rng if len(n.iter.args) == 2]
@@ -321,7 +411,7 @@ def run(index, tier="quick", seed=0) -> Result:
         else:
             raise AnalysisError("NBR-2: the pair loops of _get_face_intersections are not of a recognised form")
     both = [n for n in ast.walk(fgi.node) if isinstance(n, ast.Call) and ast.unparse(n.func).endswith("_face_to_edges")]
-    if both:
+    if both and edge_map is None:
         rev = [n for n in both if len(n.args) > 1 or n.keywords]
         if rev and len(both) > len(rev):
             res.ok("NBR-2", "Polyhedron._get_face_intersections:both-directions")
@@ -397,6 +487,7 @@ def run(index, tier="quick", seed=0) -> Result:
         res.notes.append("IDX-2: Polyhedron.sort_faces no longer rewrites faces through an np.where lookup (rule not applicable)")
     _cyclic_modulus(res, index)
     _merge_grouping(res, index)
+    _merge_orientation(res, index)
     return res
 
 
@@ -519,3 +610,41 @@ def _merge_grouping(res, index):
                 "facet is split into several coplanar faces (the relation must be closed transitively: connected components / union-find)")
     else:
         raise AnalysisError("MRG-1: the way Polyhedron.merge_faces groups the faces to merge is not recognised")
+
+
+
+def _merge_orientation(res, index):
+    """MRG-2: merge_faces compares the planes of two neighbours up to orientation (the input faces may be wound either way).
+    Accepted: both orientations are tested (`close(eq1, eq2) or close(eq1, -eq2)`), or the orientation is chosen from the
+    normals (a dot product of the normal parts is +-1 for coplanar faces, never 0). An orientation chosen from the offset
+    component alone (`eq1[3] * eq2[3] < 0`) is undecided for every plane through the origin, where both offsets vanish:
+    oppositely wound coplanar faces of such a facet are then never merged. Other formulations give no verdict."""
+    cls = index.cls("Polyhedron")
+    fn = cls.methods.get("merge_faces")
+    if fn is None:
+        raise AnalysisError("anchor vanished: Polyhedron.merge_faces")
+    key = "Polyhedron.merge_faces:orientation"
+    for n in ast.walk(fn.node):
+        if not isinstance(n, ast.If):
+            continue
+        negs = [a for a in n.body if isinstance(a, ast.Assign) and isinstance(a.value, ast.UnaryOp) and isinstance(a.value.op, ast.USub)
+                and isinstance(a.value.operand, ast.Name)]
+        if not negs:
+            continue
+        subs = [x for x in ast.walk(n.test) if isinstance(x, ast.Subscript)]
+        if subs and all(isinstance(x.slice, (ast.Constant, ast.UnaryOp)) and ast.unparse(x.slice) in ("3", "-1") for x in subs) \
+                and not any(isinstance(x, ast.Call) and ast.unparse(x.func).split(".")[-1] in ("dot", "inner", "einsum", "vdot") for x in ast.walk(n.test)):
+            res.bad("MRG-2", key + ":offset-sign", f"{fn.file}:{n.lineno}", f"Polyhedron.merge_faces chooses the orientation of the second plane from the offsets "
+                    f"alone (`{ast.unparse(n.test)[:60]}`): for a facet whose plane passes through the origin both offsets are 0, the test never "
+                    f"flips, and oppositely wound coplanar triangles are not merged")
+            return
+    ors = [n for n in ast.walk(fn.node) if isinstance(n, ast.BoolOp) and isinstance(n.op, ast.Or) and len(n.values) == 2]
+    for o in ors:
+        calls = [v for v in o.values if isinstance(v, ast.Call) and ast.unparse(v.func).split(".")[-1] in ("allclose", "isclose", "array_equal") and len(v.args) >= 2]
+        if len(calls) == 2:
+            plain = [c for c in calls if not any(isinstance(a, ast.UnaryOp) and isinstance(a.op, ast.USub) for a in c.args[:2])]
+            flipped = [c for c in calls if any(isinstance(a, ast.UnaryOp) and isinstance(a.op, ast.USub) for a in c.args[:2])]
+            if len(plain) == 1 and len(flipped) == 1:
+                res.ok("MRG-2", key, sample={"test": ast.unparse(o)[:120]})
+                return
+    res.not_in_fragment.append("MRG-2: the orientation handling of Polyhedron.merge_faces is not of a recognised form")
